@@ -334,12 +334,19 @@ def scen_swap(rng):
         _fn('f0', [['if', ['arg', _e(0)], [_bf(inner, 1, catch=False, cmp_=rng.choice('MH'))] + deeper, [_bf(sub, 1, arg=1, catch=rng.random() < 0.5)]]]
             + _probe(rng, [d, sub, inner, ''], 3)),
         _fn('f1', _probe(rng, [d, sub], 1) + [['w', None]]),
+        # a build that makes nothing and only looks: what the swap left behind must not be visible
+        _fn('f2', _probe(rng, [d, sub, inner, ''], 4)),
     ]
     funcs.append(_fn('rootfail', funcs[0]['stmts'] + [['raise', 99]]))
     steps = [_build(arg=0)]
     if foreign:
         steps.append(['mut', 'write', sub + '/zz', 'm3', 6001])
-    steps += [_build(arg=1, root=rng.choice([0, 0, 2])), _build(arg=1), _build(arg=0), _build(arg=0)]
+    steps += [_build(arg=1, root=rng.choice([0, 0, 3]))]
+    if rng.random() < 0.5:
+        steps.append(_build(root=2))
+    steps += [_build(arg=1), _build(arg=0), _build(arg=0)]
+    if rng.random() < 0.4:
+        steps.append(_build(root=2))
     if rng.random() < 0.5:
         steps.append(['clean', 'n'])
     return {'tree': [], 'funcs': funcs, 'steps': steps}
